@@ -979,26 +979,24 @@ def r8_recombination_operators(ctx):
                     M = [[Sym("m%d_%d" % (j, i)) for i in range(d)] for j in range(size)]
                     B = [[Sym("b%d_%d" % (j, i)) for i in range(d)] for j in range(size)]
 
-                    def pushf(interp, env, f, args):
-                        interp.mstate["pushed"] = interp.mstate.get("pushed", ()) + (args[1],)
-                        return Agg("tuple", None, None, [])
-
-                    def popf(interp, env, f, args, opt=False):
-                        interp.mstate["pops"] = interp.mstate.get("pops", 0) + 1
-                        return some(Vec("mut")) if opt else Vec("mut")
-                    extra = {"mahf::state::common::Populations::try_pop": lambda i_, e_, f_, a_: popf(i_, e_, f_, a_, True), "mahf::state::common::Populations::pop": popf,
-                             "mahf::state::common::Populations::get_current": some(Vec("base", True)), "mahf::state::common::Populations::current": Vec("base", True),
-                             "mahf::state::common::Populations::push": pushf, "mahf::problems::VectorProblem::dimension": d}
-                    inl = lambda k: k.startswith("mahf::problems::individual::") or k.startswith("<mahf::problems::individual::") or k.startswith("mahf::population::") or "as mahf::population::" in k
+                    # the REAL population stack (another population underneath the base and the mutants)
+                    from c04 import StackModel
+                    import statemodel
+                    POP_ = "mahf::state::common::Populations"
+                    sf_ = F.field_index(POP_, "stack")
+                    popsym_ = Sym("populations", {sf_: Sym("stack")})
+                    extra = {"mahf::state::State::populations_mut": popsym_, "mahf::state::State::populations": popsym_, "mahf::problems::VectorProblem::dimension": d}
+                    inl = lambda k: k.startswith("mahf::problems::individual::") or k.startswith("<mahf::problems::individual::") or k.startswith("mahf::population::") or "as mahf::population::" in k or k.startswith(POP_ + "::")
 
                     def once(script):
-                        it = install(Interp(fn.body, chain(draw_oracle(script, 0.0, extra), coll_oracle, std_oracle), [me, Sym("problem"), Sym("state")], facts=F, inline=inl, max_visits=80))
+                        it = install(Interp(fn.body, chain(draw_oracle(script, 0.0, extra), statemodel.well_known(popsym_, Sym("rng")), StackModel(sf_), coll_oracle, std_oracle), [me, Sym("problem"), Sym("state")], facts=F, inline=inl, max_visits=80))
                         heap = {"mut": tuple(Agg("adt", IND, "Individual", [Vec("m%d" % j), NONE]) for j in range(size)),
-                                "base": tuple(Agg("adt", IND, "Individual", [Vec("b%d" % j), some(Sym("o%d" % j))]) for j in range(size))}
+                                "base": tuple(Agg("adt", IND, "Individual", [Vec("b%d" % j), some(Sym("o%d" % j))]) for j in range(size)),
+                                "below": (Agg("adt", IND, "Individual", [Vec("x0"), some(Sym("ox"))]),), "x0": tuple(Sym("x0_%d" % i) for i in range(d))}
                         for j in range(size):
                             heap["m%d" % j] = tuple(M[j])
                             heap["b%d" % j] = tuple(B[j])
-                        it.init_state = {"heap": heap, "next_vec": 0}
+                        it.init_state = {"heap": heap, "next_vec": 0, "stack": (Vec("below"), Vec("base"), Vec("mut"))}
                         return it.run()
                     for script, paths in explore(once):
                         for p in paths:
@@ -1008,9 +1006,12 @@ def r8_recombination_operators(ctx):
                             if p.end != "return" or not (isinstance(p.ret, Agg) and p.ret.variant == "Ok"):
                                 bad.append(where + ("ends with %s %s" % (p.end, p.ret),))
                                 continue
-                            pushed = p.mstate.get("pushed", ())
-                            if p.mstate.get("pops", 0) != 1 or len(pushed) != 1 or not (isinstance(pushed[0], Vec) and pushed[0].vid == "mut"):
-                                bad.append(where + ("pops %d and pushes %s instead of returning the mutated population" % (p.mstate.get("pops", 0), list(pushed)),))
+                            names_ = [getattr(x, "vid", repr(x)) for x in p.mstate.get("stack", ())]
+                            if p.mstate.get("unmodelled") or names_ != ["below", "base", "mut"]:
+                                bad.append(where + ("leaves the stack as %s instead of putting the (crossed) mutants back on top of the base population ['below', 'base', 'mut']" % (p.mstate.get("unmodelled") or names_),))
+                                continue
+                            if tg(h.get("x0", ())) != ["x0_%d" % i for i in range(d)]:
+                                bad.append(where + ("modifies the population underneath the base",))
                                 continue
                             if any(tg(h.get("b%d" % j, ())) != tg(B[j]) for j in range(size)) or len(h.get("base", ())) != size or len(h.get("mut", ())) != size:
                                 bad.append(where + ("modifies the base population",))
@@ -1031,22 +1032,16 @@ def r8_recombination_operators(ctx):
         for height in (0, 1):
             me = Sym("self", {F.field_index(adt, "pc"): 0.5})
 
-            def popf0(interp, env, f, args, opt=False, height=height):
-                if height < 1:
-                    return NONE if opt else "DIVERGE"
-                return some(Vec("mut")) if opt else Vec("mut")
-
-            def cur0(interp, env, f, args, opt=False, height=height):
-                if height < 2:
-                    return NONE if opt else "DIVERGE"
-                return some(Vec("base", True)) if opt else Vec("base", True)
-            extra0 = {"mahf::state::common::Populations::try_pop": lambda i_, e_, f_, a_: popf0(i_, e_, f_, a_, True), "mahf::state::common::Populations::pop": popf0,
-                      "mahf::state::common::Populations::get_current": lambda i_, e_, f_, a_: cur0(i_, e_, f_, a_, True), "mahf::state::common::Populations::current": cur0,
-                      "mahf::state::common::Populations::push": Agg("tuple", None, None, []), "mahf::problems::VectorProblem::dimension": 2,
-                      "mahf::state::common::Populations::len": height, "mahf::state::common::Populations::is_empty": height == 0}
-            it = install(Interp(fn.body, chain(draw_oracle((), 0.0, extra0), coll_oracle, std_oracle), [me, Sym("problem"), Sym("state")], facts=F,
-                                inline=lambda k: k.startswith("mahf::problems::individual::") or k.startswith("mahf::population::") or "as mahf::population::" in k, max_visits=20))
-            it.init_state = {"heap": {"mut": (Agg("adt", IND, "Individual", [Vec("m0"), NONE]),), "m0": (Sym("m"), Sym("m")), "base": ()}, "next_vec": 0}
+            from c04 import StackModel
+            import statemodel
+            POP_ = "mahf::state::common::Populations"
+            sf_ = F.field_index(POP_, "stack")
+            popsym_ = Sym("populations", {sf_: Sym("stack")})
+            extra0 = {"mahf::state::State::populations_mut": popsym_, "mahf::state::State::populations": popsym_, "mahf::problems::VectorProblem::dimension": 2}
+            it = install(Interp(fn.body, chain(draw_oracle((), 0.0, extra0), statemodel.well_known(popsym_, Sym("rng")), StackModel(sf_), coll_oracle, std_oracle), [me, Sym("problem"), Sym("state")], facts=F,
+                                inline=lambda k: k.startswith("mahf::problems::individual::") or k.startswith("mahf::population::") or "as mahf::population::" in k or k.startswith(POP_ + "::"), max_visits=20))
+            it.init_state = {"heap": {"mut": (Agg("adt", IND, "Individual", [Vec("m0"), NONE]),), "m0": (Sym("m"), Sym("m")), "base": ()}, "next_vec": 0,
+                             "stack": (Vec("mut"),) if height == 1 else ()}
             try:
                 for p in it.run():
                     if p.end != "return" or not (isinstance(p.ret, Agg) and p.ret.variant == "Err"):
